@@ -18,6 +18,7 @@ EXPLANATION = (
     "(missing_field(\"alpha\")) and default to max_intensity in the optional-alpha helpers; as_array/as_uint use the cast pair "
     "into_*_ref / from_*.  All key literals on both sides are the single string \"alpha\".  Not decided: equality of concrete JSON/RON "
     "round trips (format crates are outside the analysed program); serde's own derive semantics is trusted."
+    " EQ-COVER: PartialEq::eq of every colour type, Alpha and PreAlpha compares every component with the same-named one (found F13)."
 )
 
 SER_FILE = "palette/src/serde/alpha_serializer.rs"
